@@ -19,6 +19,7 @@ from __future__ import annotations
 
 import ast
 import json
+import os
 from typing import Any, Dict, List
 
 import z3
@@ -26,9 +27,9 @@ import z3
 from pyvc.explore import explore, prove
 from pyvc.interp import Builtin, Env, Interp, PathState
 from pyvc.strings import Repeat, SChar, Slice, SymText
-from pyvc.values import ListObj, Num, Obj, OutOfSubset, PyRaise, ReturnEx, zarith
+from pyvc.values import DictObj, ListObj, Num, Obj, OutOfSubset, PyRaise, ReturnEx, zarith
 
-from .common import REPO, Result, run_venv
+from .common import REPO, Result, run_venv, tierb_json
 
 # ---- specification table (from the property statement / tokenizer documentation)
 OPERATORS = {"+": ("Plus", "+"), "-": ("Minus", "-"), "–": ("Minus", "-"), "*": ("Multiply", "*"), "/": ("Divide", "/"), "^": ("Exponent", "^"),
@@ -145,10 +146,8 @@ def tokenize_step_path(I: Interp, ps: PathState) -> Dict[str, Any]:
     pre, post = body[:idx], body[idx + 1 :]
     text = SymText("buf")
     ps.assume(text.n >= 0)
-    tok = I.new_obj(["Tokenizer"], label="tokenizer")
     keep = ps.choose(2, "padding") == 1
-    tok.cur["exclude_padding"] = not keep
-    tok.cur["functions"] = I.getattr(I.instantiate(I.classes["Tokenizer"], [], {}), "functions")
+    tok = I.instantiate(I.classes["Tokenizer"], [], {"exclude_padding": not keep})
     fnames = [k for k in tok.cur["functions"].items]
     eat_calls = []
 
@@ -176,8 +175,12 @@ def tokenize_step_path(I: Interp, ps: PathState) -> Dict[str, Any]:
         env = Env(parent=fv.env)
         env.vars.update({"self": tok, "buffer": text.whole()})
         if phase == "init":
-            for st in pre:
-                I.exec_stmt(st, env)
+            try:
+                for st in pre:
+                    I.exec_stmt(st, env)
+            except PyRaise as pr:
+                ob("inv-init/no-raise", False, f"{pr.exc.clsname} at {pr.site}")
+                return {"obligations": obl, "labels": list(ps.labels)}
             ctx = env.vars.get("context")
             ok = isinstance(ctx, Obj) and isinstance(ctx.cur.get("chunk"), Slice) and ctx.cur["chunk"].is_(z3.IntVal(0), text.n) and isinstance(ctx.cur.get("buffer"), Slice) \
                 and ctx.cur["buffer"].is_(z3.IntVal(0), text.n) and ctx.cur.get("index") == 0 and isinstance(ctx.cur.get("tokens"), ListObj) and not ctx.cur["tokens"].items
@@ -319,6 +322,167 @@ def _per_char(new, ty, text, lo, hi, ps):
     return tp == ty and isinstance(v, SChar) and v.text is text and z3.is_true(z3.simplify(v.idx == r.index))
 
 
+MUTATORS = {"append", "extend", "insert", "pop", "remove", "clear", "update", "setdefault", "popitem", "add", "discard", "sort", "reverse", "__setitem__", "__delitem__"}
+
+
+def tokenizer_stateless(I: Interp, repo: str) -> List[Dict[str, Any]]:
+    """`Tokenizer.tokenize(text)` is a function of the text and of the configuration set in __init__:
+    (1) no method other than __init__ assigns, deletes or mutates an attribute of `self` (scan of the
+    class as it is now); (2) the working context of a call is an object created by that call - it is
+    not reachable from the tokenizer before the call (executed on the real statements before the loop);
+    (3) the list that is returned is the context's token list, i.e. created by the call as well.
+    Used by C11 (history independence of the segmentation proof) and by C12/C10 (which take
+    tokenize by contract)."""
+    out: List[Dict[str, Any]] = []
+
+    def ob(clause, ok, detail=""):
+        out.append({"clause": f"Tokenizer/stateless/{clause}", "ok": bool(ok), "detail": "" if ok else detail})
+
+    src = open(os.path.join(repo, "mathy_core", "tokenizer.py")).read()
+    tree = ast.parse(src)
+    cls = next((n for n in tree.body if isinstance(n, ast.ClassDef) and n.name == "Tokenizer"), None)
+    if cls is None:
+        ob("class-found", False, "class Tokenizer missing")
+        return out
+
+    def on_self(n):
+        return isinstance(n, ast.Attribute) and isinstance(n.value, ast.Name) and n.value.id == "self"
+
+    for m in cls.body:
+        if not isinstance(m, ast.FunctionDef) or m.name == "__init__":
+            continue
+        bad = []
+        aliases = set()  # local names bound to self.<attr> (then mutated through the alias)
+        for n in ast.walk(m):
+            if isinstance(n, ast.Assign) and on_self(n.value):
+                for t in n.targets:
+                    if isinstance(t, ast.Name):
+                        aliases.add(t.id)
+        mutable_attrs = {"functions"}  # configuration that is a container: must not be mutated through an alias either
+        for n in ast.walk(m):
+            tgts = []
+            if isinstance(n, ast.Assign):
+                tgts = n.targets
+            elif isinstance(n, (ast.AugAssign, ast.AnnAssign)):
+                tgts = [n.target]
+            elif isinstance(n, ast.Delete):
+                tgts = n.targets
+            for t in tgts:
+                for x in ast.walk(t):
+                    if on_self(x) or (isinstance(x, (ast.Attribute, ast.Subscript)) and isinstance(x.value, ast.Name) and x.value.id in aliases):
+                        bad.append(f"line {n.lineno}: store to {ast.unparse(t)}")
+            if isinstance(n, ast.Call) and isinstance(n.func, ast.Attribute) and n.func.attr in MUTATORS:
+                recv = n.func.value
+                if on_self(recv) or (isinstance(recv, ast.Attribute) and on_self(recv.value)) or (isinstance(recv, ast.Name) and recv.id in aliases) \
+                        or (isinstance(recv, ast.Attribute) and isinstance(recv.value, ast.Name) and recv.value.id in aliases):
+                    bad.append(f"line {n.lineno}: {ast.unparse(n.func)}(...)")
+            if isinstance(n, (ast.Global, ast.Nonlocal)):
+                bad.append(f"line {n.lineno}: {type(n).__name__.lower()} statement")
+        if bad:
+            # a store into the tokenizer is not by itself a dependence on history (a correct cache would be one):
+            # undecided here; the two executed obligations below and the bounded histories decide
+            out.append({"clause": f"Tokenizer/stateless/{m.name}-does-not-modify-the-tokenizer", "ok": False, "undecided": True, "detail": "; ".join(bad[:3])})
+        else:
+            ob(f"{m.name}-does-not-modify-the-tokenizer", True)
+    # module-level mutable state written from the class
+    mod_names = {t.id for n in tree.body if isinstance(n, ast.Assign) for t in n.targets if isinstance(t, ast.Name)}
+    for m in cls.body:
+        if isinstance(m, ast.FunctionDef):
+            for n in ast.walk(m):
+                if isinstance(n, ast.Call) and isinstance(n.func, ast.Attribute) and n.func.attr in MUTATORS and isinstance(n.func.value, ast.Name) and n.func.value.id in mod_names:
+                    ob(f"{m.name}-does-not-modify-module-state", False, f"line {n.lineno}: {ast.unparse(n.func)}(...)")
+    # (2), (3): run the statements before the loop on a tokenizer built by its real __init__
+    try:
+        from pyvc.explore import explore as _explore
+
+        def path(ps):
+            I.ps = ps
+            I.call_depth = 0
+            res = []
+            fv = I.get_func("mathy_core.tokenizer", "Tokenizer.tokenize")
+            body = [st for st in fv.node.body if not (isinstance(st, ast.Expr) and isinstance(st.value, ast.Constant))]
+            loops = [st for st in body if isinstance(st, ast.While)]
+            if len(loops) != 1:
+                raise OutOfSubset("tokenize: expected exactly one while loop")
+            pre = body[: body.index(loops[0])]
+            tok = I.instantiate(I.classes["Tokenizer"], [], {})
+            before = set()
+
+            def reach(v):
+                if isinstance(v, Obj):
+                    if id(v) in before:
+                        return
+                    before.add(id(v))
+                    for x in v.cur.values():
+                        reach(x)
+                elif isinstance(v, ListObj):
+                    before.add(id(v))
+                    for x in v.items:
+                        reach(x)
+                elif isinstance(v, DictObj):
+                    before.add(id(v))
+                    for x in v.items.values():
+                        reach(x)
+
+            reach(tok)
+            snap = {k: (id(v) if isinstance(v, (Obj, ListObj, DictObj)) else repr(v)) for k, v in tok.cur.items()}
+            text = SymText("buf")
+            ps.assume(text.n >= 0)
+            env = Env(parent=fv.env)
+            env.vars.update({"self": tok, "buffer": text.whole()})
+            try:
+                for st in pre:
+                    I.exec_stmt(st, env)
+            except PyRaise as pr:
+                res.append(("setup-before-the-loop-does-not-raise", False, f"{pr.exc.clsname} at {pr.site}"))
+                return res
+            ctx = env.vars.get("context")
+            if not isinstance(ctx, Obj):
+                raise OutOfSubset("tokenize: no local `context` before the loop")
+            if id(ctx) not in before:
+                res.append(("context-is-created-by-the-call", True, ""))
+                toks = ctx.cur.get("tokens")
+                res.append(("token-list-is-created-by-the-call", isinstance(toks, ListObj) and id(toks) not in before and not toks.items, f"tokens={toks!r}"))
+            else:
+                # the context is held by the tokenizer: fine only if the setup rewinds ALL of it, whatever an
+                # earlier - possibly aborted - call left there.  Havoc its fields and run the setup again.
+                marker = I.new_obj(["object"], label="left-over-token")
+                ctx.cur["tokens"] = ListObj([marker])
+                ctx.cur["index"] = Num(ps.fresh("old_index", "Int"))
+                ctx.cur["chunk"] = "left-over"
+                ctx.cur["buffer"] = "left-over"
+                env2 = Env(parent=fv.env)
+                env2.vars.update({"self": tok, "buffer": text.whole()})
+                try:
+                    for st in pre:
+                        I.exec_stmt(st, env2)
+                except PyRaise as pr:
+                    res.append(("setup-before-the-loop-does-not-raise", False, f"{pr.exc.clsname} at {pr.site}"))
+                    return res
+                c2 = env2.vars.get("context")
+                toks = c2.cur.get("tokens") if isinstance(c2, Obj) else None
+                clean = isinstance(toks, ListObj) and not toks.items and c2.cur.get("index") == 0 and isinstance(c2.cur.get("chunk"), Slice) and isinstance(c2.cur.get("buffer"), Slice)
+                res.append(("reused-context-is-completely-rewound-by-the-setup", clean,
+                            f"state of an earlier (possibly aborted) call survives: tokens={toks!r} index={c2.cur.get('index') if isinstance(c2, Obj) else None!r}"))
+            snap2 = {k: (id(v) if isinstance(v, (Obj, ListObj, DictObj)) else repr(v)) for k, v in tok.cur.items()}
+            res.append(("tokenizer-attributes-unchanged-by-the-setup", snap == snap2, f"{snap} -> {snap2}"))
+            return res
+
+        n = 0
+        for o in _explore(path):
+            if o.error is not None:
+                out.append({"clause": "Tokenizer/stateless/in-subset", "ok": False, "undecided": True, "detail": f"out-of-subset: {o.error}"})
+                continue
+            for c, ok, d in o.result:
+                n += 1
+                ob(c, ok, d)
+        if n == 0 and not any(x.get("undecided") for x in out):
+            out.append({"clause": "Tokenizer/stateless/vacuous", "ok": False, "undecided": True, "detail": "no path"})
+    except OutOfSubset as e:
+        out.append({"clause": "Tokenizer/stateless/in-subset", "ok": False, "undecided": True, "detail": f"out-of-subset: {e}"})
+    return out
+
+
 def run(tier: str, seed: int) -> int:
     R = Result("C11", tier, seed)
     I = Interp(REPO)
@@ -332,6 +496,16 @@ def run(tier: str, seed: int) -> int:
     n_obl = n_ok = 0
     per: Dict[str, int] = {}
     samples = []
+    for ob in tokenizer_stateless(I, REPO):
+        if ob.get("undecided"):
+            R.undecided.append(f"stateless: {ob['detail']}")
+            continue
+        n_obl += 1
+        per["stateless"] = per.get("stateless", 0) + 1
+        if ob["ok"]:
+            n_ok += 1
+        else:
+            R.violation(f"obligation C11/{ob['clause']} failed: {ob['detail'][:240]}", {"obligation": ob}, False)
     for name, fn in jobs:
         try:
             outs = explore(fn)
@@ -359,7 +533,7 @@ def run(tier: str, seed: int) -> int:
     if p.returncode not in (0, 1):
         R.engine_errors.append("tier-B failed: " + p.stderr[-300:])
     else:
-        bounded = json.loads(p.stdout)
+        bounded = tierb_json(p, R)
         for f in bounded.get("failures", [])[:6]:
             R.violation(f"bounded check on real code: {f['clause']}: {f['detail'][:300]}", {"failure": f}, True)
     R.level = "proof" if not R.undecided and n_ok == n_obl else "other"
